@@ -184,6 +184,15 @@ pub fn check(html: &str, w: usize, cx: &mut Cx) {
             legit.insert(v[..k].to_vec());
         }
     }
+    // Preformat is appended after the stack (KF-C09-1), so inside <pre> a decoration emitted
+    // between two elements carries a prefix of the chain plus Preformat
+    if d.has_elem("pre") {
+        for v in legit.clone() {
+            let mut w = v.clone();
+            w.push("Preformat(false)".into());
+            legit.insert(w);
+        }
+    }
     let mut seen_multi = false;
     let mut known_pre = false;
     for l in lines {
